@@ -100,6 +100,17 @@ fn synthetic(bad: &mut Vec<(String, String)>, keys: &mut std::collections::HashS
     n
 }
 
+struct SpinBarrier(std::sync::atomic::AtomicUsize);
+
+impl SpinBarrier {
+    fn wait(&self) {
+        self.0.fetch_add(1, Ordering::SeqCst);
+        while self.0.load(Ordering::SeqCst) < 4 {
+            std::hint::spin_loop();
+        }
+    }
+}
+
 fn synth(signo: c_int, code: c_int, pid: c_int, uid: u32) -> siginfo_t {
     let raw = RawInfo { si_signo: signo, si_errno: 0, si_code: code, _pad: 0, pid, uid, rest: [0x5A; 104] };
     unsafe { std::mem::transmute(raw) }
@@ -386,7 +397,28 @@ fn real_child(m: Mech, sig: c_int, fd: i32) -> i32 {
     0
 }
 
+fn first_race() -> i32 {
+    let barrier = std::sync::Arc::new(SpinBarrier(std::sync::atomic::AtomicUsize::new(0)));
+    let mut js = Vec::new();
+    for t in 0..4i32 {
+        let b = barrier.clone();
+        js.push(std::thread::spawn(move || {
+            let kinds = [(libc::SIGUSR1, 0), (libc::SIGUSR1, -1), (libc::SIGHUP, -6), (libc::SIGCHLD, 1)];
+            let (sg, code) = kinds[t as usize];
+            let rec = synth(sg, code, 4000 + t, 5000 + t as u32);
+            let want = table(sg, code);
+            b.wait();
+            let o = unsafe { Origin::extract(&rec) };
+            o.cause == want.0 && o.process.map(|p| (p.pid, p.uid)) == Some((4000 + t, 5000 + t as u32))
+        }));
+    }
+    if js.into_iter().all(|j| j.join().unwrap_or(false)) { 0 } else { 1 }
+}
+
 pub fn main(args: &[String]) -> i32 {
+    if crate::has_flag(args, "--first-race") {
+        return first_race();
+    }
     let seed = arg_u64(args, "--seed", 1);
     let t0 = crate::now_ms();
     let mut bad: Vec<(String, String)> = Vec::new();
@@ -457,32 +489,24 @@ pub fn main(args: &[String]) -> i32 {
             }
         }
     }
-    // the very first extractions of a process, made by four threads at the same moment (40 fresh processes)
-    for round in 0..40 {
-        let res = fork::probe(20_000, false, |fd| {
-            let barrier = std::sync::Arc::new(std::sync::Barrier::new(4));
-            let mut js = Vec::new();
-            for t in 0..4i32 {
-                let b = barrier.clone();
-                js.push(std::thread::spawn(move || {
-                    let kinds = [(libc::SIGUSR1, 0), (libc::SIGUSR1, -1), (libc::SIGHUP, -6), (libc::SIGCHLD, 1)];
-                    let (sg, code) = kinds[t as usize];
-                    let rec = synth(sg, code, 4000 + t, 5000 + t as u32);
-                    let want = table(sg, code);
-                    b.wait();
-                    let o = unsafe { Origin::extract(&rec) };
-                    o.cause == want.0 && o.process.map(|p| (p.pid, p.uid)) == Some((4000 + t, 5000 + t as u32))
-                }));
+    // the very first extractions of a process, made by four threads at the same moment: freshly exec'ed processes (a forked
+    // child would inherit whatever the library set up during the extractions this process has already made)
+    if let Ok(exe) = std::env::current_exe() {
+        for round in 0..120 {
+            match std::process::Command::new(&exe).args(["w_origin", "--first-race"]).output() {
+                Ok(o) if o.status.code() == Some(0) => {
+                    keys.insert("first-extractions-race".to_string());
+                }
+                Ok(o) if o.status.code() == Some(1) => {
+                    bad.push(("overlapping-extractions-mixed-up".into(), format!("round {}: the first extractions of a fresh process, made by four threads at once, did not all report the cause and sender of their own record", round)));
+                    break;
+                }
+                other => {
+                    inconclusive = Some(format!("first-extraction probe could not run: {:?}", other.map(|o| o.status)));
+                    break;
+                }
             }
-            let ok = js.into_iter().all(|j| j.join().unwrap_or(false));
-            fork::wr(fd, if ok { "FIRST ok\n" } else { "FIRST wrong\n" });
-            0
-        });
-        if res.out.contains("FIRST wrong") {
-            bad.push(("overlapping-extractions-mixed-up".into(), format!("round {}: the first extractions of a fresh process, made by four threads at once, did not all report the cause and sender of their own record", round)));
-            break;
         }
-        keys.insert("first-extractions-race".to_string());
     }
     // overlapping extractions
     let mut overlap = (0u64, 0u64);
